@@ -163,7 +163,7 @@ def run(ctx):
         "model_mismatches_on_cases_failing_the_predicate": explained,
         "model_mismatch_signatures": sorted(by_sig)[:20],
         "property_predicate_failures": sorted(summ["failures"]),
-        "samples": summ["samples"][:2] or [t[:600] for t in list(impl)[:2]],
+        "samples": (summ.get("samples") or [])[:2] or [t[:600] for t in list(impl)[:2]],
         "exhaustive": False,
         "trusted_base": [
             "Coq 8.16.1 kernel (coqc; coqchk in the thorough tier); vm_compute used for the finite start/size domain of import_decode_dbc",
